@@ -60,6 +60,7 @@ type UnitRun struct {
 	paramVal map[string]Val
 	callees  map[string]bool
 	retHook  func(*State, []Val)
+	usedLemmas map[string]bool
 }
 
 type resultVar struct {
@@ -71,7 +72,7 @@ type resultVar struct {
 func newUnitRun(p *Program, u *Unit) *UnitRun {
 	r := &UnitRun{prog: p, unit: u, info: u.Pkg.TypesInfo, decls: newDecls(), needs: map[string]bool{},
 		siteOrd: map[ast.Node]int{}, loopOrd: map[ast.Stmt]int{}, retOrd: map[*ast.ReturnStmt]int{}, callOrd: map[*ast.CallExpr]int{},
-		varUnit: map[types.Object]*Unit{}, maxPaths: 4000, assumps: map[string]bool{}, paramVal: map[string]Val{}, callees: map[string]bool{}}
+		varUnit: map[types.Object]*Unit{}, maxPaths: 4000, assumps: map[string]bool{}, paramVal: map[string]Val{}, callees: map[string]bool{}, usedLemmas: map[string]bool{}}
 	return r
 }
 
@@ -155,6 +156,22 @@ func (r *UnitRun) numberSites() {
 func (r *UnitRun) oblige(st *State, kind, site, goal string, n ast.Node, detail string, tags []string) *Obligation {
 	if st.dead {
 		return nil
+	}
+	// conjunctive goals are split: each conjunct is its own query under the same obligation name (smaller queries are
+	// the stable ones; the instances are merged when the results are aggregated)
+	if cs := splitAnd(goal); len(cs) > 1 {
+		var last *Obligation
+		for _, c := range cs {
+			last = r.oblige(st, kind, site, c, n, detail, tags)
+		}
+		return last
+	}
+	if impl, ok := splitImpliesAnd(goal); ok {
+		var last *Obligation
+		for _, c := range impl {
+			last = r.oblige(st, kind, site, c, n, detail, tags)
+		}
+		return last
 	}
 	o := &Obligation{Name: r.unit.Name + ":" + kind + ":" + site, Unit: r.unit.Name, Kind: kind, Site: site, Goal: goal,
 		Facts: append([]string(nil), st.facts...), Pos: r.pos(n), Trace: append([]string(nil), st.trace...), Detail: detail, Tags: tags, run: r}
@@ -898,4 +915,66 @@ func replaceToken(s, name, by string) string {
 		i = end
 	}
 	return b.String()
+}
+
+// sexprArgs splits "(op a b c)" into op and its top-level arguments.
+func sexprArgs(s string) (string, []string) {
+	if len(s) < 2 || s[0] != '(' || s[len(s)-1] != ')' {
+		return "", nil
+	}
+	body := s[1 : len(s)-1]
+	var parts []string
+	depth, start := 0, 0
+	for i := 0; i <= len(body); i++ {
+		if i == len(body) || (body[i] == ' ' && depth == 0) {
+			if i > start {
+				parts = append(parts, body[start:i])
+			}
+			start = i + 1
+			continue
+		}
+		switch body[i] {
+		case '(':
+			depth++
+		case ')':
+			depth--
+		}
+	}
+	if len(parts) == 0 {
+		return "", nil
+	}
+	return parts[0], parts[1:]
+}
+
+func splitAnd(goal string) []string {
+	op, args := sexprArgs(goal)
+	if op != "and" {
+		return nil
+	}
+	var out []string
+	for _, a := range args {
+		if sub := splitAnd(a); len(sub) > 1 {
+			out = append(out, sub...)
+		} else {
+			out = append(out, a)
+		}
+	}
+	return out
+}
+
+// splitImpliesAnd turns (=> p (and a b)) into (=> p a), (=> p b).
+func splitImpliesAnd(goal string) ([]string, bool) {
+	op, args := sexprArgs(goal)
+	if op != "=>" || len(args) != 2 {
+		return nil, false
+	}
+	cs := splitAnd(args[1])
+	if len(cs) < 2 {
+		return nil, false
+	}
+	var out []string
+	for _, c := range cs {
+		out = append(out, sx("=>", args[0], c))
+	}
+	return out, true
 }
